@@ -517,7 +517,8 @@ def incomplete_flag_clause(ctx, res, cc, prop, cid):
             if not src_ok and c.args and pm is roles.start:
                 # the metadata step written in place in the scope: the recording is the scope's own (a local bound to the active field)
                 src_ok = _self_attr(expand_locals(pm.node, c.args[0])) == roles.active
-            direct = any(k.arg == 'direct_access' and isinstance(k.value, ast.Constant) and k.value.value is True for k in c.keywords)
+            from . import c11 as _c11d
+            direct = _c11d.selects_direct(roles.extractor, _c11d.accessor_selector(roles.extractor), c)     # whatever the option is called
             coll = '__recorded_outputs__'
             x.iter = ast.Name(id=coll, ctx=ast.Load())
     op_alias = const_of(roles, 'OPERATION_OUTPUT_ALIAS')
